@@ -180,6 +180,11 @@ def gen_case(rng):
         s["rel_deg"] = rng.choice([0.0, round(rng.uniform(0, 3), 2)])
         s["winds"] = [[round(rng.uniform(20, 90), 2), rng.choice([0.0, 0.0, round(rng.uniform(-40, 40) % 360, 1)]), None]]
         r_ft = rng.choice([round(rng.uniform(3, 60), 2), round(rng.uniform(60, 400), 1), float(rng.randint(10, 300))])
+        if rng.random() < 0.45:
+            # the tail wind only sets in down range: calm / head / cross wind first
+            first = rng.choice([[0.0, 0.0], [round(rng.uniform(5, 40), 1), 180.0], [round(rng.uniform(5, 40), 1), 270.0],
+                                [round(rng.uniform(5, 40), 1), round(rng.uniform(100, 260), 1)]])
+            s["winds"] = [[first[0], first[1], round(r_ft * rng.uniform(0.1, 0.7), 2)], s["winds"][0]]
     else:
         s = gen.shot(rng, custom=0.1, wind_max=90.0)
         s["rel_deg"] = min(s["rel_deg"], 20.0)
